@@ -63,6 +63,9 @@ struct vf_ctx {
 	int more_pending, prev_leng, tok_prefix;
 	void *slot[VF_MAXSLOT];
 	void *slotmem[VF_MAXSLOT];
+	int slotsrc[VF_MAXSLOT];
+	int bstk[VF_MAXSLOT];
+	int bdepth;
 	FILE *out;
 	/* allocator ledger */
 	int ledger_on;
@@ -398,6 +401,14 @@ static long vf_src_read(struct vf_src *s, char *buf, size_t max)
 	s->pos += k;
 	c->delivered += k;
 	return (long) k;
+}
+
+/* a source is handed out again from its start ("a new file") */
+static VF_UNUSED void vf_rewind(struct vf_ctx *c, int i)
+{
+	c->src[i].pos = 0;
+	if (c->src[i].fp)
+		clearerr(c->src[i].fp);
 }
 
 static struct vf_src *vf_find_src(struct vf_ctx *c, FILE *fp)
